@@ -53,8 +53,14 @@ func rwRun(t *testing.T, c rwCase, opt rwOptions) (res rwResult) {
 		for _, j := range c.LateTargets {
 			late[j%c.NT] = true
 		}
+		lateS := map[int]bool{}
+		for _, i := range c.LateSources {
+			lateS[i%c.NS] = true
+		}
 		for i := 0; i < c.NS; i++ {
-			w.open("S", i)
+			if !lateS[i] {
+				w.open("S", i)
+			}
 		}
 		for j := 0; j < c.NT; j++ {
 			if !late[j] {
@@ -80,6 +86,11 @@ func rwRun(t *testing.T, c rwCase, opt rwOptions) (res rwResult) {
 			for j := 0; j < c.NT; j++ {
 				if w.liveT(j) == nil && len(w.targets[j].incs) == 0 {
 					w.open("T", j)
+				}
+			}
+			for i := 0; i < c.NS; i++ {
+				if len(w.sources[i].incs) == 0 {
+					w.open("S", i)
 				}
 			}
 			for _, s := range w.sources {
@@ -255,6 +266,18 @@ func rwBreak(w *rwWorld, o rwOp) {
 		} else {
 			inc.ss.PushEOF()
 		}
+	case "revErr":
+		// only the reverse stream of a target's connection fails (the direction that carries nothing here); the initiator's
+		// own stream stays up until the proxy ends it
+		if o.Side == "T" && inc.cs != nil {
+			inc.cs.PushErr(rwBreakErr())
+			inc.revBrokenStep = w.step
+			w.classes["only_the_reverse_stream_of_a_target_connection_failed"]++
+		} else if o.Side == "S" && inc.cs != nil {
+			inc.cs.PushErr(rwBreakErr())
+		} else {
+			inc.ss.PushErr(rwBreakErr())
+		}
 	case "sendErr":
 		if o.Side == "S" && inc.cs != nil {
 			inc.cs.FailSend(rwBreakErr())
@@ -294,7 +317,9 @@ func rwBreak(w *rwWorld, o rwOp) {
 	case <-inc.done:
 	default:
 	}
-	inc.ss.Kill()
+	if inc.revBrokenStep == 0 {
+		inc.ss.Kill()
+	}
 	if inc.cs != nil {
 		inc.cs.PushEOF()
 	}
@@ -537,6 +562,13 @@ func rwGenCase(t *rapid.T, faults bool) rwCase {
 			c.TgtNode = append(c.TgtNode, rapid.IntRange(0, c.Nodes-1).Draw(t, "tgtNode"))
 		}
 	}
+	// one case in four: one source shard opens its stream only later (its first watermarks then meet streams and
+	// watermark state that other source shards have already built up)
+	lateSrc := -1
+	if c.NS > 1 && rapid.IntRange(0, 3).Draw(t, "lateSource") == 0 {
+		lateSrc = rapid.IntRange(0, c.NS-1).Draw(t, "lateS")
+		c.LateSources = []int{lateSrc}
+	}
 	silent := -1
 	if rapid.IntRange(0, 3).Draw(t, "silentCase") == 0 {
 		silent = rapid.IntRange(0, c.NT-1).Draw(t, "silent")
@@ -598,6 +630,10 @@ func rwGenCase(t *rapid.T, faults bool) rwCase {
 		}
 		c.Ops = append(append(append([]rwOp{}, c.Ops[:pos]...), burst...), c.Ops[pos:]...)
 	}
+	if lateSrc >= 0 {
+		pos := rapid.IntRange(0, len(c.Ops)).Draw(t, "lateSPos")
+		c.Ops = append(append(append([]rwOp{}, c.Ops[:pos]...), rwOp{K: "connect", Side: "S", I: lateSrc}), c.Ops[pos:]...)
+	}
 	return c
 }
 
@@ -618,7 +654,7 @@ func rwGenFault(t *rapid.T, c rwCase) rwOp {
 	if c.Nodes > 1 && rapid.IntRange(0, 3).Draw(t, "move") == 0 {
 		return rwOp{K: "move", Side: "T", I: rapid.IntRange(0, c.NT-1).Draw(t, "mi"), N: rapid.IntRange(0, c.Nodes-1).Draw(t, "mn")}
 	}
-	op := rwOp{K: "break", Side: side, I: rapid.IntRange(0, n-1).Draw(t, "bi"), How: rapid.SampledFrom([]string{"recvErr", "recvEOF", "sendErr", "cancel", "cancel"}).Draw(t, "how")}
+	op := rwOp{K: "break", Side: side, I: rapid.IntRange(0, n-1).Draw(t, "bi"), How: rapid.SampledFrom([]string{"recvErr", "recvEOF", "sendErr", "cancel", "cancel", "revErr"}).Draw(t, "how")}
 	// (not with several instances: the intra-proxy receiver retries a send into a closed-but-registered channel in a
 	// tight loop without sleeping, which never lets virtual time advance while the harness holds the sender parked)
 	if side == "T" && c.Nodes <= 1 && rapid.IntRange(0, 3).Draw(t, "window") == 0 {
@@ -806,7 +842,7 @@ func TestVF_C03_Rapid(t *testing.T) {
 
 // ---- C04
 
-const c04Rule = "C01's world plus stream failures: break(source|target stream, how in {peer error on Recv, peer EOF, Send error, initiator cancelled}) anywhere in the history (random part) and at every step boundary of a generated fault-free prefix (systematic part), followed by reconnections (a re-connected source resumes from the highest low watermark it was ever sent and re-sends from there; a re-connected target starts a fresh tracker); oracle across all incarnations: whenever a source is sent low=a, every task of that source with id<a that the proxy ever read has been confirmed by some target-stream incarnation for some copy of it; non-trivial = a fault landed while a task of some source was delivered-but-unconfirmed or queued, followed by a reconnect and a further source ack; distinct = distinct histories"
+const c04Rule = "C01's world plus stream failures: break(source|target stream, how in {peer error on Recv, peer EOF, Send error, initiator cancelled, only the reverse stream of a target connection fails; a target break may also leave the dying sender parked right after it closed its delivery channel}) anywhere in the history (random part; also on 2-3 proxy instances with target streams moving between them) and at every step boundary of a generated fault-free prefix (systematic part), followed by reconnections (a re-connected source resumes from the highest low watermark it was ever sent and re-sends from there; a re-connected target starts a fresh tracker); oracle across all incarnations: whenever a source is sent low=a, every task of that source with id<a that the proxy ever read has been confirmed by some target-stream incarnation for some copy of it; non-trivial = a fault landed while a task of some source was delivered-but-unconfirmed or queued, followed by a reconnect and a further source ack; distinct = distinct histories"
 
 type c04Outcome struct {
 	known    map[string]int
